@@ -127,6 +127,13 @@ Theorem C03_int_beyond_int64_witnesses :
 Proof. split; [exact ex_big_result | exact ex_big_missing_result]. Qed.
 Print Assumptions C03_int_beyond_int64_witnesses.
 
+(* open finding empty-list-types-array-column-float64: {1: p=[2^53+1, -128], 2: p=[]} comes back with float elements, 2^53+1 rounded *)
+Theorem C03_empty_list_witness :
+  nx_rt true ex_empty_list 0 0
+  = Ok (mkcg true [(1%Z, [("p", CArr SFloat [2%nat] [2 ^ 53 * 1024; -128 * 1024]%Z)]); (2%Z, [("p", CArr SFloat [0%nat] [])])] []).
+Proof. exact ex_empty_list_result. Qed.
+Print Assumptions C03_empty_list_witness.
+
 (* ---- non-vacuity ---- *)
 (* undirected graph, ids 1 / 2^63+5 / 2^64-1, a bool property on two of three nodes, a str property on one, a float edge property
    on one of two edges: in the domain, and the computed round trip gives the graph back with bool still bool and nothing filled in *)
